@@ -424,6 +424,8 @@ fn combo_choices(rng: &mut Rng, max: u32, exhaustive: bool) -> Vec<u32> {
 // ---------------------------------------------------------------------------------------------
 
 struct Lines {
+    /// `OSK` probes (harness/src/c09osk.rs)
+    osk: crate::c09osk::OskLines,
     /// `PP` lines built from real attributes (harness/src/c09pp.rs)
     pp: crate::c09pp::PpLines,
     seen: BTreeSet<u64>,
@@ -439,7 +441,7 @@ impl Lines {
         for (kind, n) in [("ACCO", 20_000), ("EMC", 15_000), ("ACCT", 6000), ("ACCC", 6000), ("ACCM", 8000), ("TKG", 4000), ("ZPP", 400)] {
             budget.insert(kind.to_owned(), n * k);
         }
-        Lines { pp: crate::c09pp::PpLines::new(thorough, true, 1), seen: BTreeSet::new(), budget, default_budget: 5000 * k }
+        Lines { osk: crate::c09osk::OskLines::new(thorough, 1), pp: crate::c09pp::PpLines::new(thorough, true, 1), seen: BTreeSet::new(), budget, default_budget: 5000 * k }
     }
 
     fn push(&mut self, run: &mut Run, id: &str, req: String, obs: String) {
@@ -906,6 +908,9 @@ fn check_case(run: &mut Run, lines: &mut Lines, rng: &mut Rng, id: &str, map: &B
             Err(_) => run.count("strains:panic(C05)"),
         }
     }
+    if mode == 0 && passed.is_none() && map.mode == mode_of(0) {
+        crate::c09osk::probe(run, &mut lines.osk, id, &d, map);
+    }
     let cx = Ctx { id, d: &d, flags, classic, lazer, exhaustive, n_samples, repro: &repro_s };
     match &attrs {
         DifficultyAttributes::Osu(a) => sweep_osu(run, lines, rng, &cx, a, &flags),
@@ -1096,6 +1101,9 @@ pub fn run(tier: &str, seed: u64, only: Option<&str>) -> Run {
     if only.is_none() || only.is_some_and(|o| o.starts_with("pp-")) {
         crate::c09pp::synthetic(&mut run, &mut rng.fork(), thorough);
     }
+    if only.is_none() || only.is_some_and(|o| o.starts_with("osk-")) {
+        crate::c09osk::patterns(&mut run, &mut Rng::new(seed ^ 0x05c), thorough);
+    }
 
     // (case id, map text, native mode)
     let mut maps: Vec<(String, String, u8)> = Vec::new();
@@ -1149,6 +1157,7 @@ pub fn run(tier: &str, seed: u64, only: Option<&str>) -> Run {
                     let mut run = Run::default();
                     let mut lines = Lines::new(thorough);
                     lines.pp = crate::c09pp::PpLines::new(thorough, true, n_threads);
+                    lines.osk = crate::c09osk::OskLines::new(thorough, n_threads);
                     for v in lines.budget.values_mut() {
                         *v /= n_threads;
                     }
